@@ -24,15 +24,21 @@ def runFresh (kv : List (String × String)) : Res := Id.run do
   let some result := get kv "result" | return .bad "result"
   let tags := [s!"fresh.{strat}"]
   if result != "ok" then return .propfail s!"strategy {strat}: a readable word could not be read" tags
-  let some vals := (get kv "vals").bind natList | return .bad "vals"
-  let some after := getNat kv "after" | return .bad "after"
-  -- the counter only grows; the thread runs between the reads (2 ms apart), so equal values mean a stale answer
-  let pairs := vals.zip (vals.drop 1)
-  match pairs.find? (fun (a, b) => b ≤ a) with
-  | some (a, b) => return .propfail s!"strategy {strat}: a later read of the busy thread's counter returned {b} after {a}: not the target's current bytes" tags
-  | none => pure ()
-  if vals.getLast?.getD 0 > after then return .propfail s!"strategy {strat}: returned a value the target never held" tags
-  return .ok tags (some s!"fresh/{strat}/{vals.length}")
+  -- obs = lo:value:hi per read, lo / hi observed independently just before / after the read; the counter only grows
+  let obs := splitList ((get kv "obs").getD "-")
+  let mut tags := tags
+  let mut moved := 0
+  let mut prev : Option Nat := none
+  for o in obs do
+    match (o.splitOn ":").map String.toNat? with
+    | [some lo, some v, some hi] =>
+      if v < lo then return .propfail s!"strategy {strat}: read returned {v}, but the target's counter had already reached {lo} before the read began: not the target's current bytes" tags
+      if v > hi then return .propfail s!"strategy {strat}: read returned {v}, a value the target had not reached ({hi}) when the read had ended" tags
+      if prev.isSome && prev != some lo then moved := moved + 1
+      prev := some hi
+    | _ => return .bad "obs"
+  if moved > 0 then tags := "fresh.moved" :: tags else tags := "fresh.stalled" :: tags
+  return .ok tags (some s!"fresh/{strat}/{obs.length}")
 
 def run (kv : List (String × String)) : Res := Id.run do
   if get kv "kind" == some "spawnfail" then return .bad "spawn"
